@@ -134,6 +134,11 @@ pub struct Scenario {
     /// fail, when the system refuses to start them
     #[serde(default)]
     pub threads_allowed: Option<u32>,
+    /// every stat answer about the file behind standard output carries the inode number of the
+    /// first input file and another device number: an output file on a second file system whose
+    /// inode number happens to equal an input's (what "is the input also the output?" checks meet)
+    #[serde(default)]
+    pub stdout_ino_alias: bool,
 }
 
 #[derive(Clone, Debug, Serialize, Deserialize)]
@@ -154,6 +159,7 @@ pub struct Counters {
     pub f_eio_read: u64,
     pub f_eagain_read: u64,
     pub f_thread_refused: u64,
+    pub f_stdout_stat_aliased: u64,
     pub f_enospc_write: u64,
     pub f_epipe_write: u64,
     pub f_read_split_inside_line: u64,
@@ -187,7 +193,7 @@ impl Counters {
         macro_rules! a { ($($f:ident),*) => { $( self.$f += o.$f; )* } }
         a!(
             processes, syscalls, f_short_read, f_short_write, f_eintr_read, f_eintr_write,
-            f_eio_read, f_eagain_read, f_thread_refused, f_enospc_write, f_epipe_write, f_read_split_inside_line,
+            f_eio_read, f_eagain_read, f_thread_refused, f_stdout_stat_aliased, f_enospc_write, f_epipe_write, f_read_split_inside_line,
             f_read_split_inside_char, f_write_split_inside_line, f_write_split_inside_escape,
             p_line_longer_than_buffer, p_pattern_file_trickled, p_two_files_no_filename,
             p_colored_runs, p_highlight_checked_lines, p_multibyte_highlight, p_dev_runs,
@@ -807,6 +813,13 @@ pub fn execute(sc: &Scenario, bins: &Bins, dir: &Path) -> RunResult {
     if let Some(k) = sc.threads_allowed {
         sched_txt += &format!("t n {k}\n");
     }
+    if sc.stdout_ino_alias && !sc.pipe_inputs {
+        if let Some((name, _)) = sc.files.first() {
+            use std::os::unix::fs::MetadataExt;
+            let ino = std::fs::metadata(dir.join(name)).expect("harness: stat of an input file").ino();
+            sched_txt += &format!("s i {ino}\n");
+        }
+    }
     w("sched.txt", sched_txt.as_bytes());
     let bin = match sc.profile {
         Profile::Dev => &bins.dev,
@@ -953,6 +966,7 @@ pub fn run(sc: &Scenario, bins: &Bins, dir: &Path, known_crlf: bool) -> Outcome 
     c.syscalls = calls.len() as u64;
     let threads_refused = r.log.lines().filter(|l| l.starts_with("t ") && l.ends_with(" refused")).count() as u64;
     c.f_thread_refused += threads_refused;
+    c.f_stdout_stat_aliased += r.log.lines().filter(|l| l.starts_with("s ") && l.ends_with(" aliased")).count() as u64;
     let mut h = DefaultHasher::new();
     r.log.hash(&mut h);
     let mut trace_hash = h.finish();
@@ -1475,7 +1489,11 @@ pub fn generate(seed: u64, cfg: &GenCfg) -> Scenario {
         pipe_inputs: false,
         stdin_consumed: vec![],
         threads_allowed: None,
+        stdout_ino_alias: false,
     };
+    if !cfg.small && !sc.files.is_empty() && rng.chance(1, 10) {
+        sc.stdout_ino_alias = true;
+    }
     if !cfg.small && rng.chance(1, 8) {
         sc.threads_allowed = Some(*rng.pick(&[0u32, 0, 1, 2, 3]));
     }
@@ -1753,12 +1771,13 @@ pub fn minimise(sc: &Scenario, class: &str, bins: &Bins, dir: &Path, known_crlf:
             shrink(&mut cur, &|c: &mut Scenario| &mut c.stdin_lines[i]);
         }
         // flags
-        for k in 0..10 {
+        for k in 0..11 {
             let mut c = cur.clone();
             match k {
                 7 => c.pipe_inputs = false,
                 8 => c.stdin_consumed.clear(),
                 9 => c.threads_allowed = None,
+                10 => c.stdout_ino_alias = false,
                 5 => {
                     c.pat_file_layout = 0;
                     c.flag_style = 0;
